@@ -6,6 +6,7 @@ SRC = "src/machine/arithmetic_ops.rs"
 MOD = "arith_c01"
 Q = ("quick", "thorough")
 T = ("thorough",)
+D = ("deep",)     # unregistered tier: instances that do not finish within an hour here
 
 
 def H(name, cost, desc, bounds, tiers=Q, **kw):
@@ -27,16 +28,16 @@ HARNESSES = [
       timeout=3000),
     H("c01_mul_7x55", 120, "mul crossing the fixnum boundary (swapped)", "|x| < 2^7, |y| < 2^55",
       tiers=T),
-    H("c01_mul_32x31", 600, "mul vs i128 product", "|x| < 2^32, |y| < 2^31", tiers=T,
+    H("c01_mul_32x31", 600, "mul vs i128 product", "|x| < 2^32, |y| < 2^31", tiers=D,
       timeout=3000),
     H("c01_mul_overflow_delegates", 380, "i64-overflowing product is delegated to dashu with "
       "both operands intact", "x full 56-bit, y = +-2^k, k 9..55, product overflows i64", tiers=T,
       timeout=3000),
     H("c01_div_rem_mod_8x8", 430, "// rem mod vs defining equations", "|x|,|y| < 2^8", timeout=1500),
-    H("c01_div_rem_mod_16x16", 1200, "// rem mod vs defining equations", "|x|,|y| < 2^16", tiers=T,
+    H("c01_div_rem_mod_16x16", 1200, "// rem mod vs defining equations", "|x|,|y| < 2^16", tiers=D,
       timeout=5400),
-    H("c01_div_rem_mod_55x8", 300, "// rem mod", "|x| < 2^55, |y| < 2^8", tiers=T, timeout=3000),
-    H("c01_div_rem_mod_24x24", 600, "// rem mod", "|x|,|y| < 2^24", tiers=T, timeout=3000),
+    H("c01_div_rem_mod_55x8", 300, "// rem mod", "|x| < 2^55, |y| < 2^8", tiers=D, timeout=3000),
+    H("c01_div_rem_mod_24x24", 600, "// rem mod", "|x|,|y| < 2^24", tiers=D, timeout=3000),
     H("c01_idiv_min_by_minus_one", 10, "MIN // -1 = 2^55 as a bignum", "concrete"),
     H("c01_int_floor_div", 490, "div vs floor inequality (S10)", "|x|,|y| < 2^8", tiers=T, timeout=3000),
     H("c01_shr_nonneg_count", 60, ">> by any count 0..2^55 is floor(x/2^s) (F1 site)",
@@ -82,9 +83,10 @@ ASSUME = [
     "operands that are already bignums or rationals are outside (Kani mis-models "
     "TypedArenaPtr::deref, DESIGN P18)",
 ]
-BOUNDS = ("full 56-bit operands for + - neg abs sign min max /\\ \\/ xor \\ << >>; * : 16x16 and "
-          "55x7 bits (quick), +7x55, 32x31 (thorough); // rem mod div: 16x16 (quick), 55x8, "
-          "24x24 (thorough) - quick: 8x8; gcd < 64; ^ |base|<=40, exp -3..6; unwind 10..40")
+BOUNDS = ("full 56-bit operands for + - neg abs sign min max /\\ \\/ xor \\ << >>; * : 16x16 (quick), "
+          "+55x7, 7x55 (thorough); // rem mod: 8x8 (quick); div: 8x8 (thorough); wider division / "
+          "multiplication instances (16x16, 24x24, 55x8, 32x31) did not finish within an hour and are "
+          "not part of any registered tier; gcd < 64; ^ |base|<=40, exp -3..6; unwind 10..40")
 OUTSIDE = ("values computed by dashu; bignum/rational operand arms; nested expressions (C03)")
 
 
